@@ -311,18 +311,29 @@ class SymbolGraph(metaclass=SingletonMeta):
         self._instance_graph.add_edge(
             relation.source.index, relation.target.index, relation
         )
-        if relation.wrapped_field not in self._relation_index:
-            self._relation_index[relation.wrapped_field] = set()
-        self._relation_index[relation.wrapped_field].add(
+        relation_key = self._relation_key(relation)
+        if relation_key not in self._relation_index:
+            self._relation_index[relation_key] = set()
+        self._relation_index[relation_key].add(
             (relation.source.index, relation.target.index)
         )
         return True
+
+    @staticmethod
+    def _relation_key(relation: PredicateClassRelation) -> Any:
+        """
+        :return: What identifies the field of a relation. A wrapped field compares by (class, field), so the same
+         field seen through a subclass (an inherited field of an instance of a subclass) is another wrapped field; the
+         dataclass field object itself is shared by the class that declares it and all its subclasses.
+        """
+        wrapped_field = relation.wrapped_field
+        return getattr(wrapped_field, "field", wrapped_field)
 
     def relation_exists(self, relation: PredicateClassRelation) -> bool:
         return (
             relation.source.index,
             relation.target.index,
-        ) in self._relation_index.get(relation.wrapped_field, set())
+        ) in self._relation_index.get(self._relation_key(relation), set())
 
     def relations(self) -> Iterable[PredicateClassRelation]:
         yield from self._instance_graph.edges()
